@@ -390,7 +390,7 @@ class ScriptServer(object):
         for c in self.conns:
             if c.closed:
                 continue
-            if c.tls != self.tls and c.inbox:
+            if self.tls != "both" and c.tls != self.tls and c.inbox:
                 # plain bytes to a TLS port or TLS to a plain port: record and drop the connection
                 self.net.log.append(dict(server=(self.ip, self.port), tls=c.tls, garbage=True,
                                          method=None, target=None, headers={}, body=b""))
@@ -435,6 +435,8 @@ class FakeNet(object):
         self.respond = respond
 
     def add(self, ip, port, tls=False):
+        """tls: False = plain port, True = TLS port, "both" = accepts either (a front end that serves
+        http and https on one port; lets a redirect change ONLY the scheme)"""
         self.servers[(ip, port)] = ScriptServer(self, ip, port, tls)
 
     def service(self):
